@@ -445,7 +445,7 @@ fn cancel_twin() {
             let c01: Option<String> = w.violations.iter().find(|v| v.prop == "C01" && (v.sig.contains("packet-inside-packet") || v.sig.contains("malformed") || v.sig.contains("bad-framing") || v.sig.contains("bytes-after-disconnect"))).map(|v| v.sig.clone());
             if let (Some(sig), false) = (c01, base_cut) {
                 let tail = sig.trim_start_matches("C01/").to_string();
-                w.violate(
+                w.violate_force(
                     "C13",
                     format!("stream-corrupted-after-cancellation/{tail}"),
                     "the run with cancellations corrupted the outbound byte stream; the uncancelled run did not".into(),
